@@ -105,6 +105,8 @@ func gatedLoop(c *Cfg, n int, gen func(i int) *BatchCase, each func(i int, cs *B
 }
 
 func runC06(c *Cfg) {
+	runSpecial(c, "C06", "nested-stop-mode-batches")
+	runSpecial(c, "C06", "typed-lists-with-nil-entries")
 	r := c.Rep
 	if RaceEnabled {
 		runBatchRace(c, "C06")
@@ -497,6 +499,7 @@ func genItems(rnd interface{ IntN(int) int }, n, budget int, pattern int) []Item
 
 func runC07(c *Cfg) {
 	runSpecial(c, "C07", "batch-attempts-see-live-context")
+	runSpecial(c, "C07", "typed-lists-with-nil-entries")
 	r := c.Rep
 	if RaceEnabled {
 		runBatchRace(c, "C07")
@@ -1135,6 +1138,7 @@ func typedNilItemRun(cc int, stop bool, n int, bad map[int]bool) (errSlots []boo
 
 func runC09(c *Cfg) {
 	runSpecial(c, "C09", "panicking-batch-item")
+	runSpecial(c, "C09", "stop-mode-batch-inside-flows")
 	r := c.Rep
 	if RaceEnabled {
 		runBatchRace(c, "C09")
